@@ -141,7 +141,10 @@ pub fn build_symtab(enc: Enc, names: &[Vec<u8>], fields_seed: u64, share: bool) 
         let sym = if i == 0 {
             Sym { st_name: off, ..Default::default() }
         } else {
-            Sym { st_name: off, st_info: (r >> 8) as u8, st_other: (r >> 16) as u8, st_shndx: (r >> 24) as u16, st_value: (r >> 3).wrapping_mul(i as u64 + 1), st_size: r >> 40 }
+            // (one symbol in eight sits at the very top of the address space: value + size reaches or passes 2^64, which
+            // is nobody's business when a symbol is merely looked up)
+            let (v, sz) = if r % 8 == 0 { (u64::MAX - ((r >> 8) & 0xff), 0x100 + ((r >> 16) & 0xffff)) } else { ((r >> 3).wrapping_mul(i as u64 + 1), r >> 40) };
+            Sym { st_name: off, st_info: (r >> 8) as u8, st_other: (r >> 16) as u8, st_shndx: (r >> 24) as u16, st_value: v, st_size: sz }
         };
         sym.write(&mut w);
         syms.push(sym.as_written(enc));
